@@ -16,6 +16,40 @@ def _dealias(fnode, expr):
     return d(fnode, expr)
 
 
+def _subst(fnode, expr, depth=4):
+    """Source of `expr` with single-assignment local names replaced by the expression they were bound to (any
+    expression kind; used only to *read* conditions, never to reason about evaluation order)."""
+    import copy as _copy
+    assigns = {}
+    for n in ast.walk(fnode):
+        if isinstance(n, ast.Assign) and len(n.targets) == 1 and isinstance(n.targets[0], ast.Name):
+            assigns.setdefault(n.targets[0].id, []).append(n.value)
+    params = {a.arg for a in ast.walk(fnode) if isinstance(a, ast.arg)}
+
+    class Sub(ast.NodeTransformer):
+        d = 0
+
+        def visit_Name(self, node):
+            vs = assigns.get(node.id)
+            if vs and len(vs) == 1 and isinstance(node.ctx, ast.Load) and node.id not in params and self.d < depth \
+                    and node.id not in {x.id for x in ast.walk(vs[0]) if isinstance(x, ast.Name)}:
+                self.d += 1
+                try:
+                    return self.visit(_copy.deepcopy(vs[0]))
+                finally:
+                    self.d -= 1
+            return node
+    if isinstance(expr, str):
+        expr = ast.parse(expr, mode="eval").body
+    return ast.unparse(Sub().visit(_copy.deepcopy(expr)))
+
+
+def _desc(rep, rule, text):
+    """Rule ids are shared with older rules of the same property: descriptions accumulate instead of replacing."""
+    old = rep.rules.get(rule)
+    rep.rules[rule] = text if not old or text in old else f"{old}; {text}"
+
+
 def _guards(fnode, node):
     from .c16 import _guards_of
     return _guards_of(fnode, node)
@@ -43,7 +77,7 @@ def build_attr_spec_rules(ctx, rep: Report, rule: str, aspects=("dnc", "target")
     dnc    - the per-attribute do_not_copy flag handed in (decorator level) is only ever *raised* by the declared
              Attr(...): an assignment to it is the constant True or keeps the incoming value as an `or` operand;
     target - the class default is planted on the class being decorated (`spec_cls`), never on the inherited owner."""
-    rep.rules[rule] = "build_attr_spec: do_not_copy is only raised by the declaration; the default is set on spec_cls"
+    _desc(rep, rule, "build_attr_spec: do_not_copy is only raised by the declaration; the default is set on spec_cls")
     fi = ctx.p.find_function("spec_class.build_attr_spec")
     params = [a.arg for a in fi.node.args.args + fi.node.args.kwonlyargs]
     if "do_not_copy" not in params or "spec_cls" not in params:
@@ -75,7 +109,7 @@ def build_attr_spec_rules(ctx, rep: Report, rule: str, aspects=("dnc", "target")
 def refresh_rules(ctx, rep: Report, rule: str):
     """bootstrap's refresh loop of inherited Attr specs: the rebuild is triggered by the class *declaring* the name
     (`attr in spec_cls.__dict__` / vars) or by a changed do_not_copy, and the spec is rebuilt for the class being decorated."""
-    rep.rules[rule] = "refresh of inherited specs: trigger = own-namespace declaration or changed do_not_copy; rebuilt for spec_cls"
+    _desc(rep, rule, "refresh of inherited specs: trigger = own-namespace declaration or changed do_not_copy; rebuilt for spec_cls")
     bs = ctx.p.find_function("spec_class.bootstrap")
     found = False
     for f, loop in walk_own_all(ctx.p, bs):
@@ -92,7 +126,7 @@ def refresh_rules(ctx, rep: Report, rule: str):
             if not ok:
                 _v(rep, rule, "refresh|class", f"spec_class.bootstrap rebuilds an inherited attribute for `{first}` instead of the class being decorated: the subclass's own declaration (default, invalidated_by of its property, preparer) is ignored", f, c, "spec_class.bootstrap")
             conds = " && ".join(_guards(f.node, c))
-            conds_d = conds
+            conds_d = " && ".join(_subst(f.node, g) for g in _guards(f.node, c))
             own = ("in spec_cls.__dict__" in conds_d or "in vars(spec_cls)" in conds_d)
             ident = "getattr(spec_cls" in conds_d
             ok = own and not ident
@@ -106,7 +140,7 @@ def refresh_rules(ctx, rep: Report, rule: str):
 def options_independent(ctx, rep: Report, rule: str):
     """bootstrap applies each decorator option (`metadata.<opt> = self.<opt>`) under a condition that mentions only that
     option: an `elif` chain makes one option's presence suppress another."""
-    rep.rules[rule] = "each decorator option override in bootstrap is guarded by its own option only"
+    _desc(rep, rule, "each decorator option override in bootstrap is guarded by its own option only")
     bs = ctx.p.find_function("spec_class.bootstrap")
     n = 0
     for f, s in walk_own_all(ctx.p, bs):
@@ -125,64 +159,117 @@ def options_independent(ctx, rep: Report, rule: str):
             if not ok:
                 _v(rep, rule, f"option|{opt}", f"spec_class.bootstrap applies the decorator option `{opt}` only depending on other options ({', '.join(sorted(others))}): `@spec_class({sorted(others)[0]}=..., {opt}=...)` silently drops `{opt}`", f, s, "spec_class.bootstrap")
     if n < 2:
-        raise AnalysisError(f"{rule}: decorator option overrides not found in bootstrap ({n})")
+        # table-driven form: for name in <tuple of option names>: if getattr(self, name) is not MISSING: setattr(metadata, name, ...)
+        loops = [s_ for f_, s_ in walk_own_all(ctx.p, bs) if isinstance(s_, ast.For) and
+                 any(isinstance(c_, ast.Call) and ast.unparse(c_.func) == "setattr" and c_.args and ast.unparse(c_.args[0]) == "metadata" for c_ in ast.walk(s_))]
+        if not loops:
+            raise AnalysisError(f"{rule}: decorator option overrides not found in bootstrap ({n})")
+        for lp in loops:
+            var = lp.target.id if isinstance(lp.target, ast.Name) else None
+            for c_ in ast.walk(lp):
+                if isinstance(c_, ast.Call) and ast.unparse(c_.func) == "setattr" and c_.args and ast.unparse(c_.args[0]) == "metadata":
+                    others = set()
+                    for g in _guards(lp, c_):
+                        for x in ast.walk(ast.parse(g, mode="eval")):
+                            if isinstance(x, ast.Attribute) and isinstance(x.value, ast.Name) and x.value.id == "self":
+                                others.add(x.attr)
+                    ok = not others and var is not None and len(c_.args) >= 2 and ast.unparse(c_.args[1]) == var
+                    rep.oblige(rule, "bootstrap: option table loop", ok, f"guards mention {sorted(others)}")
+                    if not ok:
+                        _v(rep, rule, "option|loop", f"spec_class.bootstrap applies the decorator options in a loop whose guard depends on other options ({', '.join(sorted(others))})", bs, c_, "spec_class.bootstrap")
 
 
 # ------------------------------------------------------------------------------------------------ generated dunder methods
 def setattr_rules(ctx, rep: Report, rule: str, aspects=("forward", "prepare", "default")):
-    """Generated __setattr__ / __delattr__:
+    """Generated __setattr__ / __delattr__ (closures of SetAttrMethod / DelAttrMethod.build_method, plus the private
+    helpers of those classes):
     forward - `force` / `skip_invalidation` reach mutate_attr / invalidate_attrs exactly as received (or as constants);
-    prepare - in __setattr__ the value is prepared whenever the attribute is managed (condition = the spec exists);
-    default - in __delattr__ the restored default comes from lookup_default_value(self.__class__) only."""
-    rep.rules[rule] = "generated __setattr__/__delattr__: flags forwarded verbatim; prepare iff managed; default via lookup_default_value"
+    prepare - in __setattr__ the value is prepared exactly when the attribute is managed (path condition = the spec exists);
+    default - in __delattr__ the restored default comes from lookup_default_value(<instance>.__class__) only."""
+    _desc(rep, rule, "generated __setattr__/__delattr__: flags forwarded verbatim; prepare iff managed; default via lookup_default_value")
     sfi = ctx.p.find_function("SetAttrMethod.build_method")
     dfi = ctx.p.find_function("DelAttrMethod.build_method")
     sn, dn = _nested(sfi, "__setattr__"), _nested(dfi, "__delattr__")
     if sn is None or dn is None:
         raise AnalysisError(f"{rule}: generated __setattr__/__delattr__ not found")
+
+    def scope(fi, fn):
+        """function nodes that make up the generated method: the closure + every other method of the descriptor class
+        + private module-level helpers they call"""
+        nodes = [fn]
+        if fi.cls is not None:
+            for name_, defs in fi.cls.methods.items():
+                for d in defs:
+                    if d.node is not fi.node:
+                        nodes.append(d.node)
+        for g in with_private_callees(ctx.p, fi):
+            if g is not fi and g.node not in nodes:
+                nodes.append(g.node)
+        return nodes
     if "forward" in aspects:
         for fi, fn in ((sfi, sn), (dfi, dn)):
-            params = {a.arg for a in fn.args.args + fn.args.kwonlyargs}
             cnt = 0
-            for c in ast.walk(fn):
-                if isinstance(c, ast.Call):
-                    for k in c.keywords:
-                        if k.arg in ("force", "skip_invalidation") and k.arg in params:
-                            cnt += 1
-                            ok = isinstance(k.value, ast.Constant) or (isinstance(k.value, ast.Name) and k.value.id == k.arg)
-                            rep.oblige(rule, f"{fn.name}: {k.arg}={ast.unparse(k.value)[:40]}", ok)
-                            if not ok:
-                                _v(rep, rule, f"{fn.name}|{k.arg}", f"generated {fn.name}: `{k.arg}={ast.unparse(k.value)}` is not the caller's flag: assignment / deletion no longer invalidates (or guards) exactly like the corresponding `_inplace=True` helper", fi, k.value, f"{fi.cls.name}.{fn.name}" if fi.cls else fn.name)
-            if cnt == 0:
-                raise AnalysisError(f"{rule}: {fn.name} forwards no flags")
+            for node in scope(fi, fn):
+                params = {a.arg for a in node.args.args + node.args.kwonlyargs}
+                for c in ast.walk(node):
+                    if isinstance(c, ast.Call):
+                        for k in c.keywords:
+                            if k.arg in ("force", "skip_invalidation") and k.arg in params:
+                                cnt += 1
+                                ok = isinstance(k.value, ast.Constant) or (isinstance(k.value, ast.Name) and k.value.id == k.arg)
+                                rep.oblige(rule, f"{fn.name}: {k.arg}={ast.unparse(k.value)[:40]}", ok)
+                                if not ok:
+                                    _v(rep, rule, f"{fn.name}|{k.arg}", f"generated {fn.name}: `{k.arg}={ast.unparse(k.value)}` is not the caller's flag: assignment / deletion no longer invalidates (or guards) exactly like the corresponding `_inplace=True` helper", fi, k.value, f"{fi.cls.name}.{fn.name}" if fi.cls else fn.name)
+            rep.oblige(rule, f"{fn.name}: forwarded flags inspected", True, f"{cnt}")
     if "prepare" in aspects:
         preps = [c for c in ast.walk(sn) if isinstance(c, ast.Call) and ast.unparse(c.func).split(".")[-1] == "prepare_attr_value"]
         if not preps:
             raise AnalysisError(f"{rule}: __setattr__ no longer calls prepare_attr_value")
-        parents = {id(ch): p for p in ast.walk(sn) for ch in ast.iter_child_nodes(p)}
+        parents = {id(ch): p_ for p_ in ast.walk(sn) for ch in ast.iter_child_nodes(p_)}
+        managed_forms = ("attr_spec", "attr_spec is not None", "self.__spec_class__.attrs.get(attr)", "self.__spec_class__.attrs.get(attr) is not None",
+                         "attr in self.__spec_class__.attrs")
+
+        def classify(n_):
+            t = _subst(sn, n_)
+            if t in managed_forms:
+                return ("managed", True)
+            if t in ("self.__spec_class__.attrs.get(attr) is None", "attr not in self.__spec_class__.attrs"):
+                return ("managed", False)
+            return None
         for c in preps:
-            conds = list(_guards(sn, c))
+            def holds(s_, c=c):
+                return isinstance(s_, (ast.Expr, ast.Assign, ast.Return, ast.AugAssign, ast.AnnAssign)) and any(x is c for x in ast.walk(s_))
+            rc = boolfn.reach_condition(sn.body, holds)
+            conds = [] if rc is None or rc is True else [rc]
             x = c
             while id(x) in parents:
                 par = parents[id(x)]
                 if isinstance(par, ast.IfExp):
                     if par.body is x:
-                        conds.append(ast.unparse(par.test))
+                        conds.append(par.test)
                     elif par.orelse is x:
-                        conds.append(f"not ({ast.unparse(par.test)})")
+                        conds.append(ast.UnaryOp(op=ast.Not(), operand=par.test))
                 x = par
-            cd = [_dealias(sn, ast.parse(g, mode="eval").body) for g in conds]
-            ok = all(g in ("attr_spec", "attr_spec is not None", "self.__spec_class__.attrs.get(attr)", "self.__spec_class__.attrs.get(attr) is not None",
-                           "attr in self.__spec_class__.attrs") for g in cd) and bool(cd)
-            rep.oblige(rule, "__setattr__: prepare iff managed", ok, "; ".join(cd)[:100])
+            txt = " and ".join(_subst(sn, g) for g in conds)
+            try:
+                cond = conds[0] if len(conds) == 1 else ast.BoolOp(op=ast.And(), values=conds)
+                ok = rc is not None and bool(conds) and boolfn.table(cond, classify, ["managed"]) == {(False,): False, (True,): True}
+            except ValueError:
+                ok = False
+            rep.oblige(rule, "__setattr__: prepare iff managed", ok, txt[:100])
             if not ok:
-                _v(rep, rule, "__setattr__|prepare", f"generated __setattr__ prepares the value only when `{' and '.join(cd)[:100]}`: some managed attributes are stored unprepared by assignment and by the constructor", sfi, c, "SetAttrMethod.__setattr__")
+                _v(rep, rule, "__setattr__|prepare", f"generated __setattr__ prepares the value only when `{txt[:100]}`: some managed attributes are stored unprepared by assignment and by the constructor", sfi, c, "SetAttrMethod.__setattr__")
     if "default" in aspects:
-        reads = [x for x in ast.walk(dn) if isinstance(x, ast.Attribute) and x.attr in ("default", "default_value", "default_factory") and isinstance(x.ctx, ast.Load)]
-        looks = [c for c in ast.walk(dn) if isinstance(c, ast.Call) and ast.unparse(c.func).endswith("lookup_default_value")]
+        nodes = scope(dfi, dn)
+        reads = [x for node in nodes for x in ast.walk(node) if isinstance(x, ast.Attribute) and x.attr in ("default", "default_value", "default_factory") and isinstance(x.ctx, ast.Load)]
+        looks = [c for node in nodes for c in ast.walk(node) if isinstance(c, ast.Call) and ast.unparse(c.func).endswith("lookup_default_value")]
         if not looks and not reads:
             raise AnalysisError(f"{rule}: __delattr__ no longer calls lookup_default_value")
-        ok = not reads and all(c.args and ast.unparse(c.args[0]) in ("self.__class__", "type(self)") for c in looks)
+
+        def cls_of_instance(a):
+            return (isinstance(a, ast.Attribute) and a.attr == "__class__" and isinstance(a.value, ast.Name)) or \
+                   (isinstance(a, ast.Call) and ast.unparse(a.func) == "type" and len(a.args) == 1 and isinstance(a.args[0], ast.Name))
+        ok = not reads and all(c.args and cls_of_instance(c.args[0]) for c in looks)
         rep.oblige(rule, "__delattr__: default source", ok)
         if not ok:
             what = ast.unparse(reads[0]) if reads else ast.unparse(looks[0])
@@ -192,7 +279,7 @@ def setattr_rules(ctx, rep: Report, rule: str, aspects=("forward", "prepare", "d
 def invalidate_no_force(ctx, rep: Report, rule: str):
     """invalidate_attrs resets dependants through the ordinary deletion (which re-installs a fresh default); `force=True`
     is the raw-delete route of the constructor and leaves the attribute to fall back to the *shared* class default."""
-    rep.rules[rule] = "invalidate_attrs deletes dependants without force=True"
+    _desc(rep, rule, "invalidate_attrs deletes dependants without force=True")
     fi = ctx.p.find_function("invalidate_attrs")
     n = 0
     for f, c in walk_own_all(ctx.p, fi):
@@ -209,7 +296,7 @@ def invalidate_no_force(ctx, rep: Report, rule: str):
 def mutate_value_inplace_sites(ctx, rep: Report, rule: str):
     """Who may ask mutate_value to work in place: only the top-level update/transform (on `self`, which they have copied
     themselves).  Everywhere else the value handed over is the receiver's current value or a caller's object."""
-    rep.rules[rule] = "mutate_value(inplace=...) is non-False only at the enumerated top-level sites"
+    _desc(rep, rule, "mutate_value(inplace=...) is non-False only at the enumerated top-level sites")
     allowed = {"UpdateMethod.update", "TransformMethod.transform"}
     n = 0
     from .base import short_name, site_allowed
@@ -236,7 +323,7 @@ def mutate_value_inplace_sites(ctx, rep: Report, rule: str):
 def mutate_attr_writes(ctx, rep: Report, rule: str):
     """mutate_attr: between the copy step and the raw write nothing returns: every call that gets past the
     frozen / sentinel guards stores the value (a write of an equal value still replaces the object and invalidates)."""
-    rep.rules[rule] = "mutate_attr has no early return that skips the write"
+    _desc(rep, rule, "mutate_attr has no early return that skips the write")
     fi = ctx.p.find_function("mutate_attr")
     rets = [n for n in walk_own(fi.node) if isinstance(n, ast.Return)]
     writes = [n.lineno for n in walk_own(fi.node) if isinstance(n, ast.Call) and ("setattr" in ast.unparse(n.func) or "__raw__" in ast.unparse(n.func))]
@@ -279,7 +366,7 @@ def mutate_attr_writes(ctx, rep: Report, rule: str):
 def init_spec_source(ctx, rep: Report, rule: str):
     """InitMethod.init decides copying / forwarding per attribute from the *instance's* metadata (the class being
     constructed), never from a parent's table, which may carry different options for the same name."""
-    rep.rules[rule] = "InitMethod.init reads per-attribute options from the instance metadata"
+    _desc(rep, rule, "InitMethod.init reads per-attribute options from the instance metadata")
     from ..scenarios import core_impl
     fi = core_impl(ctx.H, "init").impl
     n = 0
@@ -306,7 +393,7 @@ def init_spec_source(ctx, rep: Report, rule: str):
 def varkw_not_rebound(ctx, rep: Report, rule: str):
     """The **keywords of a helper implementation reach preparation as given: the parameter is not re-bound to a
     filtered copy (None / falsy values are values)."""
-    rep.rules[rule] = "helper implementations do not re-bind / filter their **keywords"
+    _desc(rep, rule, "helper implementations do not re-bind / filter their **keywords")
     n = 0
     for hid, h in sorted(ctx.helpers.items()):
         a = h.impl.node.args
@@ -327,7 +414,7 @@ def forward_verbatim(ctx, rep: Report, rule: str, prefixes=("methods", "collecti
     """A keyword argument whose name is a parameter of the enclosing function (with or without the leading underscore
     of the public spelling) is forwarded as that parameter or as a constant - not as an expression that makes one flag
     depend on another."""
-    rep.rules[rule] = "flags forwarded between helper layers are forwarded verbatim"
+    _desc(rep, rule, "flags forwarded between helper layers are forwarded verbatim")
     EXC = {}
     n = 0
     from .base import short_name
@@ -362,16 +449,37 @@ def property_rules(ctx, rep: Report, rule: str, aspects=("order", "inv", "key", 
     inv   - __spec_class_invalidated_by__ reports the declared dependencies on every path (no constant early return);
     key   - classproperty._cache_key depends on cache_per_subclass only;
     name  - __set_name__ binds owner / attr_name unconditionally."""
-    rep.rules[rule] = "spec_property: check before cache store; dependencies always reported; cache key by cache_per_subclass; __set_name__ unconditional"
+    _desc(rep, rule, "spec_property: check before cache store; dependencies always reported; cache key by cache_per_subclass; __set_name__ unconditional")
     if "order" in aspects:
         fi = ctx.p.find_function("spec_property.__get__")
         stores = [(f, n) for f, n in walk_own_all(ctx.p, fi) if isinstance(n, ast.Assign) and any(isinstance(t, ast.Subscript) and "__dict__" in ast.unparse(t.value) for t in n.targets)]
         checks = [(f, n) for f, n in walk_own_all(ctx.p, fi) if isinstance(n, ast.Call) and ast.unparse(n.func).split(".")[-1] == "check_type"]
         if not stores or not checks:
             raise AnalysisError(f"{rule}: cache store / type check not found in spec_property.__get__")
+        from .base import static_callees
+
+        from .base import short_name
+
+        def private(h_):
+            last = short_name(h_).split(".")[-1]
+            return h_.module is fi.module and last.startswith("_") and not last.startswith("__")
+
+        def has_check(g, depth=3):
+            if not private(g):
+                return False
+            if any(isinstance(n_, ast.Call) and ast.unparse(n_.func).split(".")[-1] == "check_type" for n_ in ast.walk(g.node)):
+                return True
+            return depth > 0 and any(has_check(h_, depth - 1) for _n, h_ in static_callees(ctx.p, g) if h_ is not g)
         for f, s in stores:
-            same = [c for g, c in checks if g is f]
-            ok = bool(same) and min(c.lineno for c in same) < s.lineno if same else (f is not fi)
+            pos = [c.lineno for g, c in checks if g is f]
+            pos += [n_.lineno for n_, h_ in static_callees(ctx.p, f) if h_ is not f and has_check(h_)]
+            if f is not fi and not pos:
+                # the store sits in a private helper of __get__: judge the call of that helper in __get__ instead
+                calls_ = [n_.lineno for n_, h_ in static_callees(ctx.p, fi) if h_ is f]
+                pos_fi = [c.lineno for g, c in checks if g is fi] + [n_.lineno for n_, h_ in static_callees(ctx.p, fi) if h_ is not f and has_check(h_)]
+                ok = bool(calls_) and bool(pos_fi) and min(pos_fi) < min(calls_)
+            else:
+                ok = bool(pos) and min(pos) < s.lineno
             rep.oblige(rule, "spec_property.__get__: check precedes cache store", ok)
             if not ok:
                 _v(rep, rule, "order", "spec_property.__get__ stores the getter result in the instance cache before checking its type: a rejected value stays cached on the receiver (the failing read / helper call changed it) and every later read returns it unchecked", f, s, "spec_property.__get__")
@@ -414,7 +522,8 @@ def property_rules(ctx, rep: Report, rule: str, aspects=("order", "inv", "key", 
     if "name" in aspects:
         fi = ctx.p.find_function("_spec_property_base.__set_name__")
         for field in ("owner", "attr_name"):
-            asg = [s for s in walk_own(fi.node) if isinstance(s, ast.Assign) and any(ast.unparse(t) == f"self.{field}" for t in s.targets)]
+            asg = [s for s in walk_own(fi.node) if isinstance(s, ast.Assign) and any(ast.unparse(t) == f"self.{field}" for t0 in s.targets
+                                                                                      for t in (t0.elts if isinstance(t0, (ast.Tuple, ast.List)) else [t0]))]
             if not asg:
                 raise AnalysisError(f"{rule}: __set_name__ no longer binds self.{field}")
             ok = all(not _guards(fi.node, s) for s in asg)
@@ -426,11 +535,12 @@ def property_rules(ctx, rep: Report, rule: str, aspects=("order", "inv", "key", 
 # ------------------------------------------------------------------------------------------------ misc
 def collection_kinds(ctx, rep: Report, rule: str):
     """Attr.collection_mutator_type: element helpers exist exactly for *mutable* containers."""
-    rep.rules[rule] = "collection_mutator_type tests the Mutable* ABCs"
+    _desc(rep, rule, "collection_mutator_type tests the Mutable* ABCs")
     fi = ctx.p.find_function("Attr.collection_mutator_type")
-    if not any(isinstance(c, ast.Call) and ast.unparse(c.func).split(".")[-1] == "type_match" for c in ast.walk(fi.node)):
+    fns = with_private_callees(ctx.p, fi)
+    if not any(isinstance(c, ast.Call) and ast.unparse(c.func).split(".")[-1] == "type_match" for g in fns for c in ast.walk(g.node)):
         raise AnalysisError(f"{rule}: collection_mutator_type no longer uses type_match")
-    names = {n.id if isinstance(n, ast.Name) else n.attr for n in ast.walk(fi.node) if isinstance(n, (ast.Name, ast.Attribute))}
+    names = {n.id if isinstance(n, ast.Name) else n.attr for g in fns for n in ast.walk(g.node) if isinstance(n, (ast.Name, ast.Attribute))}
     consts = {st_.targets[0].id: st_.value for st_ in fi.module.tree.body if isinstance(st_, ast.Assign) and len(st_.targets) == 1 and isinstance(st_.targets[0], ast.Name)}
     if fi.cls is not None:
         for st_ in fi.cls.node.body:
@@ -452,7 +562,7 @@ def collection_kinds(ctx, rep: Report, rule: str):
 def new_wrapper_order(ctx, rep: Report, rule: str):
     """The lazy __new__ wrapper triggers bootstrapping (touches cls.__spec_class__) *before* it removes itself: if
     bootstrap raises, the wrapper must still be there for the next attempt."""
-    rep.rules[rule] = "lazy __new__ wrapper: bootstrap trigger precedes self-removal"
+    _desc(rep, rule, "lazy __new__ wrapper: bootstrap trigger precedes self-removal")
     call = ctx.p.find_function("spec_class.__call__")
     news = [n for n in ast.walk(call.node) if isinstance(n, ast.FunctionDef) and n.name == "__new__" and
             any(isinstance(w, ast.With) for w in ast.walk(n))]
@@ -473,7 +583,7 @@ def new_wrapper_order(ctx, rep: Report, rule: str):
 def modules_copyable_sites(ctx, rep: Report, rule: str):
     """Who may hold the module pass-through: only the copy routines themselves.  A wider region runs user code (default
     factories, deleters) while copyreg is patched."""
-    rep.rules[rule] = "`with _modules_copyable()` appears only around the copy calls of the enumerated copy routines"
+    _desc(rep, rule, "`with _modules_copyable()` appears only around the copy calls of the enumerated copy routines")
     allowed = {"protect_via_deepcopy", "DeepCopyMethod.deepcopy", "_modules_copyable.__enter__", "_modules_copyable.__exit__"}
     from .base import short_name, site_allowed
     n = 0
@@ -481,11 +591,11 @@ def modules_copyable_sites(ctx, rep: Report, rule: str):
         if fi.is_lambda:
             continue
         for wn in walk_own(fi.node):
-            if isinstance(wn, ast.With) and any("_modules_copyable" in ast.unparse(it.context_expr) for it in wn.items):
+            if isinstance(wn, ast.Call) and ast.unparse(wn.func).split(".")[-1] == "_modules_copyable":
                 n += 1
                 short = short_name(fi)
                 ok = site_allowed(ctx, short, lambda s: s in allowed)
-                rep.oblige(rule, f"{short}: with _modules_copyable()", ok)
+                rep.oblige(rule, f"{short}: _modules_copyable()", ok)
                 if not ok:
                     _v(rep, rule, f"{short}", f"{short} holds `_modules_copyable()` around code that is not a copy (user callbacks run, and other threads can copy modules, while copyreg.dispatch_table is patched; a reducer registered meanwhile is deleted on exit)", fi, wn, short)
     if n == 0:
@@ -495,7 +605,7 @@ def modules_copyable_sites(ctx, rep: Report, rule: str):
 def remove_by_address(ctx, rep: Report, rule: str):
     """remove_item of the sequence and mapping mutators deletes the *addressed position / key* the extractor returned
     (`del collection[index]`), not an element equal to the one found there (lists may hold equal elements)."""
-    rep.rules[rule] = "remove_item deletes collection[<extractor's index>]"
+    _desc(rep, rule, "remove_item deletes collection[<extractor's index>]")
     n = 0
     for cname in ("SequenceMutator", "MappingMutator"):
         ci = ctx.p.find_class(cname)
@@ -528,7 +638,7 @@ def remove_by_address(ctx, rep: Report, rule: str):
 
 def repr_order(ctx, rep: Report, rule: str):
     """__repr__/__eq__/__hash__-free rendering of the keyed containers never sorts: keys need not be mutually orderable."""
-    rep.rules[rule] = "keyed containers' __repr__ does not sort its items"
+    _desc(rep, rule, "keyed containers' __repr__ does not sort its items")
     n = 0
     for cname in ("KeyedSet", "KeyedList"):
         ci = ctx.p.find_class(cname)
@@ -546,7 +656,7 @@ def repr_order(ctx, rep: Report, rule: str):
 def nearest_stop(ctx, rep: Report, rule: str):
     """Attr.lookup_default_value: a class along the MRO that defines the name ends the search on every path (a
     function / data descriptor there *masks* the default: MISSING, not the owner's plain default further up)."""
-    rep.rules[rule] = "lookup_default_value: every path through `name in cls.__dict__` returns"
+    _desc(rep, rule, "lookup_default_value: every path through `name in cls.__dict__` returns")
     fi = ctx.p.find_function("Attr.lookup_default_value")
     loops = [s for s in walk_own(fi.node) if isinstance(s, ast.For) and "mro" in ast.unparse(s.iter)]
     if not loops:
